@@ -389,7 +389,8 @@ func getDiagForRetSig(receiver *metadata.ReceiverMeta) (int, *diagnostics.Resolv
 				receiver.Annotations.FileName(),
 				"Expected method to return an error or a value and error tuple but found void",
 				diagnostics.DiagReceiverRetValsInvalidSignature,
-				receiver.RetValsRange(),
+				// There are no return values to point at so point at the method itself
+				receiver.Range,
 			),
 		)
 	default:
